@@ -55,6 +55,9 @@ def sx_to_str(x):
     return ''.join(chr(int(c)) for c in x)
 
 
+DRIVER_OK = True     # set by proof_step; when False every model-side run is skipped (implementation-side search only)
+
+
 class Driver:
     def __init__(self):
         self.exe = os.path.join(build.OCAML, 'driver.exe')
@@ -63,6 +66,8 @@ class Driver:
         """cases: list of S-expression strings; returns list of parsed results (or ('error', msg))."""
         if not cases:
             return []
+        if not DRIVER_OK:
+            return [['error', 'driver_unavailable'] for _ in cases]
         shards = shards or (min(16, max(1, len(cases) // 400)))
         chunks = [cases[i::shards] for i in range(shards)]
         procs = []
@@ -95,6 +100,8 @@ def run_blocks(drv, blocks, shards=16, timeout=3600):
     import threading
     if not blocks:
         return []
+    if not DRIVER_OK:
+        return [[['error', 'driver_unavailable'] for _ in b] for b in blocks]
     shards = max(1, min(shards, len(blocks)))
     assign = [[] for _ in range(shards)]
     for i, b in enumerate(blocks):
@@ -192,8 +199,13 @@ def proof_step(prop_file, cone_files):
         axioms = re.findall(r'Axioms:\n((?:.+\n?)+?)(?:\n|$)', txt)
         out['assumptions'] = {'closed_under_global_context': closed,
                               'axioms': [a.strip() for a in axioms]}
+    if os.environ.get('VERIF_FORCE_NO_DRIVER'):          # test switch: behave as if the model no longer builds
+        res['driver_ok'] = out['driver_ok'] = False
+        res['driver_log'] = 'VERIF_FORCE_NO_DRIVER'
     if not res['driver_ok']:
         out['broken'].append('extracted driver failed to build: ' + res['driver_log'][-400:])
+    global DRIVER_OK
+    DRIVER_OK = bool(res['driver_ok'])
     out['ok'] = not out['broken']
     return out
 
